@@ -43,6 +43,7 @@ theorem alignof_isAlign : (t : Ty) → IsAlign (alignof t)
   | .array _ e => by simp only [alignof]; exact alignof_isAlign e
   | .struct fs => by simp only [alignof]; exact fieldsAlign_isAlign fs
   | .named _ u => by simp only [alignof]; exact alignof_isAlign u
+  | .other _ => by simp [alignof, IsAlign]
 theorem fieldsAlign_isAlign : (fs : Fields) → IsAlign (fieldsAlign fs)
   | .nil => by simp [fieldsAlign, IsAlign]
   | .cons _ t r => by
@@ -65,18 +66,19 @@ theorem sizeof_mod_alignof : (t : Ty) → sizeof t % alignof t = 0
     simp only [sizeof, alignof]
     exact alignUp_mod (fieldsAlign_isAlign fs) _
   | .named _ u => by simp only [sizeof, alignof]; exact sizeof_mod_alignof u
+  | .other k => by cases k <;> simp [sizeof, alignof, Other.size]
 
 theorem sizeof_under : (t : Ty) → sizeof t.under = sizeof t
   | .named _ u => by simp only [Ty.under, sizeof]; exact sizeof_under u
-  | .basic _ | .ptr _ | .slice _ | .array .. | .struct _ => by simp [Ty.under]
+  | .basic _ | .ptr _ | .slice _ | .array .. | .struct _ | .other _ => by simp [Ty.under]
 
 theorem alignof_under : (t : Ty) → alignof t.under = alignof t
   | .named _ u => by simp only [Ty.under, alignof]; exact alignof_under u
-  | .basic _ | .ptr _ | .slice _ | .array .. | .struct _ => by simp [Ty.under]
+  | .basic _ | .ptr _ | .slice _ | .array .. | .struct _ | .other _ => by simp [Ty.under]
 
 theorem under_not_named : (t : Ty) → ∀ n u, t.under ≠ .named n u
   | .named _ u => by simp only [Ty.under]; exact under_not_named u
-  | .basic _ | .ptr _ | .slice _ | .array .. | .struct _ => by simp [Ty.under]
+  | .basic _ | .ptr _ | .slice _ | .array .. | .struct _ | .other _ => by simp [Ty.under]
 
 theorem under_under (t : Ty) : t.under.under = t.under := by
   cases h : t.under with
@@ -134,11 +136,11 @@ theorem sliceHdrOffsets_eq : sliceHdrOffsets = [0, 8, 16] := by decide
 
 theorem comps_under : (t : Ty) → ∀ suf off, comps t.under suf off = comps t suf off
   | .named _ u => by intro suf off; simp only [Ty.under, comps]; exact comps_under u suf off
-  | .basic _ | .ptr _ | .slice _ | .array .. | .struct _ => by simp [Ty.under]
+  | .basic _ | .ptr _ | .slice _ | .array .. | .struct _ | .other _ => by simp [Ty.under]
 
 theorem asmKind_under : (t : Ty) → asmKind t.under = asmKind t
   | .named _ u => by simp only [Ty.under, asmKind]; exact asmKind_under u
-  | .basic _ | .ptr _ | .slice _ | .array .. | .struct _ => by simp [Ty.under]
+  | .basic _ | .ptr _ | .slice _ | .array .. | .struct _ | .other _ => by simp [Ty.under]
 
 /-- The first component of a type is the type itself. -/
 theorem comps_head : (t : Ty) → ∀ suf off, (⟨suf, asmKind t, off, sizeof t⟩ : AsmComp) ∈ comps t suf off
@@ -148,6 +150,7 @@ theorem comps_head : (t : Ty) → ∀ suf off, (⟨suf, asmKind t, off, sizeof t
   | .array .. => by intro suf off; simp [comps, asmKind]
   | .struct _ => by intro suf off; simp [comps, asmKind]
   | .named _ u => by intro suf off; simp only [comps, asmKind, sizeof]; exact comps_head u suf off
+  | .other k => by intro suf off; simp [comps, sizeof]
 
 theorem fieldAt_comps : (fs : Fields) → ∀ name run o t suf off, fieldAt fs name run = some (o, t) →
     ∀ x ∈ comps t (suf ++ '_' :: name) (off + o), x ∈ compsFields fs suf off run
@@ -343,6 +346,102 @@ theorem step_spec (c c' : Comp) (s : Step) (hs : s.isDeref = false) (h : c.step 
         exact Or.inr (fieldAt_comps fs name 0 o t suf off hf x (by simpa [sub_ty, Step.suffix] using hx))
     · simp at h
 
+theorem fieldAt_fieldsNamed : (fs : Fields) → ∀ name run o t, fieldAt fs name run = some (o, t) →
+    (o, t) ∈ fieldsNamed fs name run
+  | .nil, _, _, _, _, h => by simp [fieldAt] at h
+  | .cons n ft r, name, run, o, t, h => by
+    simp only [fieldAt] at h
+    simp only [fieldsNamed, List.mem_append]
+    split at h
+    · rename_i hn
+      simp only [Option.some.injEq, Prod.mk.injEq] at h
+      obtain ⟨rfl, rfl⟩ := h
+      left; simp [hn]
+    · exact Or.inr (fieldAt_fieldsNamed r name _ o t h)
+
+/-- The offset a successful non-`Dereference` step adds is the offset of a
+component the step denotes in the toolchain's tree (`stepComps`), with the
+component's Go type: the offset is pinned, not only the flattened name. -/
+theorem step_in_stepComps (c c' : Comp) (s : Step) (hs : s.isDeref = false) (h : c.step s = .ok c') :
+    ∃ d : Nat, c'.addr.disp = c.addr.disp + (d : Int) ∧ (d, c'.ty) ∈ stepComps c.ty s := by
+  cases s with
+  | deref r => simp [Step.isDeref] at hs
+  | base =>
+    simp only [Comp.step, Comp.stepWith, sliceHdrOffsets_eq] at h
+    split at h
+    · rename_i hk
+      injection h with h; subst h
+      refine ⟨0, by simp [sub_addr], ?_⟩
+      cases hu : c.ty.under <;> simp [isSlice, isString, hu] at hk
+      · rename_i b; cases b <;> simp at hk
+        simp [stepComps, hu, sub_ty]
+      · simp [stepComps, hu, sub_ty]
+    · simp at h
+  | len =>
+    simp only [Comp.step, Comp.stepWith, sliceHdrOffsets_eq] at h
+    split at h
+    · rename_i hk
+      injection h with h; subst h
+      refine ⟨8, by simp [sub_addr], ?_⟩
+      cases hu : c.ty.under <;> simp [isSlice, isString, hu] at hk
+      · rename_i b; cases b <;> simp at hk
+        simp [stepComps, hu, sub_ty]
+      · simp [stepComps, hu, sub_ty]
+    · simp at h
+  | cap =>
+    simp only [Comp.step, Comp.stepWith, sliceHdrOffsets_eq] at h
+    split at h
+    · rename_i hk
+      injection h with h; subst h
+      refine ⟨16, by simp [sub_addr], ?_⟩
+      cases hu : c.ty.under <;> simp [isSlice, hu] at hk
+      simp [stepComps, hu, sub_ty]
+    · simp at h
+  | real =>
+    simp only [Comp.step, Comp.stepWith] at h
+    split at h
+    · rename_i f hk
+      injection h with h; subst h
+      refine ⟨0, by simp [sub_addr], ?_⟩
+      cases hu : c.ty.under <;> simp [complexPart, hu] at hk
+      rename_i b
+      cases b <;> simp at hk <;> subst hk <;> simp [stepComps, hu, sub_ty]
+    · simp at h
+  | imag =>
+    simp only [Comp.step, Comp.stepWith] at h
+    split at h
+    · rename_i f hk
+      injection h with h; subst h
+      refine ⟨f.size, by simp [sub_addr], ?_⟩
+      cases hu : c.ty.under <;> simp [complexPart, hu] at hk
+      rename_i b
+      cases b <;> simp at hk <;> subst hk <;> simp [stepComps, hu, sub_ty, Basic.size]
+    · simp at h
+  | index i =>
+    simp only [Comp.step, Comp.stepWith, Comp.index] at h
+    cases hu : c.ty.under <;> simp only [hu] at h <;> try (simp at h; done)
+    rename_i n e
+    split at h
+    · simp at h
+    · rename_i hk
+      injection h with h; subst h
+      simp only [Bool.true_and, Bool.or_eq_true, decide_eq_true_eq, not_or, Int.not_lt, Int.not_le] at hk
+      obtain ⟨k, rfl⟩ := Int.eq_ofNat_of_zero_le hk.1
+      have hkn : k < n := by omega
+      refine ⟨k * sizeof e, by simp [sub_addr, elemSize_eq], ?_⟩
+      simp [stepComps, hu, sub_ty, hkn, asmElemOff_eq]
+  | field name =>
+    simp only [Comp.step, Comp.stepWith] at h
+    cases hu : c.ty.under <;> simp only [hu] at h <;> try (simp at h; done)
+    rename_i fs
+    split at h
+    · rename_i o t hf
+      injection h with h; subst h
+      refine ⟨o, by simp [sub_addr], ?_⟩
+      simp only [stepComps, hu, sub_ty]
+      exact fieldAt_fieldsNamed fs name 0 o t hf
+    · simp at h
+
 /-- `Dereference`: a fresh address, no symbol, displacement 0, based on the
 register; the component has the pointee type. -/
 theorem deref_spec (c c' : Comp) (r : Name) (h : c.step (.deref r) = .ok c') :
@@ -509,6 +608,28 @@ theorem navigate_spec (root c' : Comp) (path : List Step) (hdf : ∀ s ∈ path,
         apply hc1 suf off
         apply hc2 (suf ++ s.suffix) (off + d1)
         simpa [pathSuffix_cons, Nat.add_assoc] using hx
+
+/-- **Navigation pins the offset**: the displacement added along a
+`Dereference`-free path is the offset of a component the path denotes in the
+toolchain's tree for the root type. -/
+theorem navigate_in_pathComps (root c' : Comp) (path : List Step) (hdf : ∀ s ∈ path, s.isDeref = false)
+    (h : navigate root path = .ok c') :
+    ∃ d : Nat, c'.addr.disp = root.addr.disp + (d : Int) ∧ (d, c'.ty) ∈ pathComps root.ty path := by
+  induction path generalizing root with
+  | nil =>
+    simp [navigate_nil] at h; subst h
+    exact ⟨0, by simp, by simp [pathComps]⟩
+  | cons s ss ih =>
+    rw [navigate_cons] at h
+    cases hc : root.step s with
+    | error e => simp [hc] at h
+    | ok c1 =>
+      simp only [hc] at h
+      obtain ⟨d1, ha1, hm1⟩ := step_in_stepComps root c1 s (hdf s (by simp)) hc
+      obtain ⟨d2, ha2, hm2⟩ := ih c1 (fun x hx => hdf x (by simp [hx])) h
+      refine ⟨d1 + d2, by rw [ha2, ha1]; simp [Int.add_assoc], ?_⟩
+      simp only [pathComps, List.mem_flatMap, List.mem_map]
+      exact ⟨(d1, c1.ty), hm1, (d2, c'.ty), hm2, rfl⟩
 
 theorem splitLastDeref_none : (path : List Step) → splitLastDeref path = none → ∀ s ∈ path, s.isDeref = false
   | [], _ => by simp
@@ -816,23 +937,21 @@ theorem argsize_eq (s : Sig) : s.bytes = asmArgSize s := by
 
 /-! ## Resolve -/
 
-theorem prim_facts : (t : Ty) → ∀ b, toPrimitive t = some b →
-    asmKind t = .scalar b.size ∧ sizeof t = b.size ∧ basicFor t b
-  | .basic b', b, h => by
-    simp only [toPrimitive] at h
+theorem prim_facts (t : Ty) (b : Basic) (h : toPrimitive t = some b) :
+    asmKind t = .scalar b.size ∧ sizeof t = b.size ∧ basicFor t b := by
+  rw [← asmKind_under, ← sizeof_under]
+  unfold toPrimitive at h
+  unfold basicFor
+  cases hu : t.under <;> simp only [hu] at h ⊢ <;> try (simp at h; done)
+  · rename_i b'
     split at h
     · simp at h
     · rename_i hk
       injection h with h; subst h
       cases b' <;> simp [Basic.isString, Basic.isComplex] at hk <;>
-        simp [asmKind, sizeof, basicFor, Ty.under, Basic.isString, Basic.isComplex]
-  | .ptr _, b, h => by
-    simp only [toPrimitive, Option.some.injEq] at h; subst h
-    simp [asmKind, sizeof, basicFor, Ty.under, Basic.size]
-  | .slice _, _, h => by simp [toPrimitive] at h
-  | .array .., _, h => by simp [toPrimitive] at h
-  | .struct _, _, h => by simp [toPrimitive] at h
-  | .named .., _, h => by simp [toPrimitive] at h
+        simp [asmKind, sizeof, Basic.isString, Basic.isComplex]
+  · injection h with h; subst h
+    simp [asmKind, sizeof, Basic.size]
 
 theorem resolve_ok (c : Comp) (a : Addr) (b : Basic) (h : c.resolve = .ok (a, b)) :
     a = c.addr ∧ toPrimitive c.ty = some b := by
@@ -854,9 +973,12 @@ theorem resolve_on_root (root c' : Comp) (post : List Step) (a : Addr) (b : Basi
   obtain ⟨ha, hp⟩ := resolve_ok c' a b hr
   obtain ⟨hk, hsz, hb⟩ := prim_facts c'.ty b hp
   obtain ⟨d, had, hty, hin, hcomps⟩ := navigate_spec root c' post hdf hn
+  obtain ⟨d', hd', hpc⟩ := navigate_in_pathComps root c' post hdf hn
   subst ha
-  refine ⟨by simp [had], by simp [had], d, by simp [had], ⟨⟨c'.ty, hty, hb⟩, by omega, ?_⟩, by omega⟩
-  have := hcomps [] 0 _ (comps_head c'.ty ([] ++ pathSuffix post) (0 + d))
+  have hdd : d' = d := by rw [had] at hd'; simp at hd'; omega
+  subst hdd
+  refine ⟨by simp [had], by simp [had], d', by simp [had], ⟨⟨(d', c'.ty), hpc, rfl, hb⟩, by omega, ?_⟩, by omega⟩
+  have := hcomps [] 0 _ (comps_head c'.ty ([] ++ pathSuffix post) (0 + d'))
   simpa [hk, hsz] using this
 
 theorem defaultName_ne_nil (pfx : Name) (i : Nat) (hp : pfx ≠ []) : defaultName pfx i ≠ [] := by
@@ -1283,6 +1405,13 @@ theorem accept_sound (s : Sig) (isRet : Bool) (sel : Sel) (path : List Step) (r 
   simp only [acceptResolve]
   split <;> simp_all
 
+/-- The acceptor answers `ok` on an error exactly when the component is not one
+the property obliges avo to address. -/
+theorem accept_err_sound (s : Sig) (isRet : Bool) (sel : Sel) (path : List Step) :
+    acceptResolve s isRet sel path .err = "ok" ↔ ¬ MustResolve s isRet sel path := by
+  simp only [acceptResolve]
+  split <;> simp_all
+
 /-- A panic is never accepted; an error is accepted unless the component must resolve. -/
 theorem accept_panic (s : Sig) (isRet : Bool) (sel : Sel) (path : List Step) :
     acceptResolve s isRet sel path .panic ≠ "ok" := by
@@ -1309,13 +1438,25 @@ def C07_statement : Prop :=
     -- an index or field that does not exist, or a step of the wrong kind, is an error
     (∀ isRet sel path c, (s.tuple isRet).select sel = .ok c → pathTy c.ty path = none →
       ∃ e, resolve s isRet sel path = .error e) ∧
-    -- a selector that denotes no variable is an error
+    -- a selector that denotes no variable is an error: index outside [0, #vars) …
     (∀ isRet path (i : Int), (i < 0 ∨ ((s.tuple isRet).comps.length : Int) ≤ i) →
-      ∃ e, resolve s isRet (.at i) path = .error e)
+      ∃ e, resolve s isRet (.at i) path = .error e) ∧
+    -- … or a name that no variable is declared with
+    (∀ isRet path (n : Name), (∀ p ∈ (s.tuple isRet).comps, p.1 ≠ n) →
+      ∃ e, resolve s isRet (.name n) path = .error e) ∧
+    -- parameters lie in [0, params size), results in [params size, Bytes())
+    (∀ isRet, ∀ p ∈ (s.tuple isRet).comps,
+      (isRet = false → p.2.addr.disp + (sizeof p.2.ty : Int) ≤ (s.paramsTuple.size : Int)) ∧
+      (isRet = true → (s.paramsTuple.size : Int) ≤ p.2.addr.disp)) ∧
+    -- through a loaded pointer the address stays inside the pointee
+    (∀ (c c2 c' : Comp) (r : Name) (post : List Step) (a : Addr) (b : Basic),
+      c.step (.deref r) = .ok c2 → (∀ st ∈ post, st.isDeref = false) → navigate c2 post = .ok c' →
+      c'.resolve = .ok (a, b) →
+      a.sym = [] ∧ a.base = .reg r ∧ InLayout c2.ty post a.disp b ∧ a.disp + (b.size : Int) ≤ (sizeof c2.ty : Int))
 
 theorem C07 : C07_statement := by
   intro s hwf
-  refine ⟨argsize_eq s, ?_, ?_, ?_, ?_, ?_⟩
+  refine ⟨argsize_eq s, ?_, ?_, ?_, ?_, ?_, ?_, ?_, ?_⟩
   · intro isRet sel path a b h; exact resolve_in_asmdecl s hwf isRet sel path a b h
   · intro isRet sel path a b hdf h
     obtain ⟨c, h1, h2, h3, h4, h5, _⟩ := resolve_inside s hwf isRet sel path a b hdf h
@@ -1323,6 +1464,13 @@ theorem C07 : C07_statement := by
   · intro isRet sel path h; exact must_resolve_resolves s hwf isRet sel path h
   · intro isRet sel path c h1 h2; exact bad_path_is_error s isRet sel path c h1 h2
   · intro isRet path i hi; exact (bad_selector_is_error s isRet path).1 i hi
+  · intro isRet path n hn; exact (bad_selector_is_error s isRet path).2 n hn
+  · intro isRet p hp
+    obtain ⟨_, _, t3, t4⟩ := tuple_inside s isRet p hp
+    exact ⟨t3, t4⟩
+  · intro c c2 c' r post a b hd hdf hn hr
+    obtain ⟨_, _, h3, h4, h5, h6⟩ := deref_offsets c c2 c' r post a b hd hdf hn hr
+    exact ⟨h3, h4, h5, h6⟩
 
 /-! ## History — finding F3 (fixed in /repo by aab3c52): what happens without the lower-bound tests
 
@@ -1364,10 +1512,10 @@ theorem at_without_lower_check_panics (t : Tuple) (i : Int) (hi : i < 0) : t.atW
 
 /-! ## Non-vacuity: concrete values -/
 
-/-- `func(x struct{a int8; b int64; c [2]int16}, []uint8) int` -/
+/-- `func(x struct{a int8; b int64; c [2]int16}, y []uint8) int` -/
 def exSig : Sig :=
   ⟨[⟨[['x']], .struct (.cons ['a'] (.basic .int8) (.cons ['b'] (.basic .int64)
-      (.cons ['c'] (.array 2 (.basic .int16)) .nil)))⟩, ⟨[], .slice (.basic .uint8)⟩],
+      (.cons ['c'] (.array 2 (.basic .int16)) .nil)))⟩, ⟨[['y']], .slice (.basic .uint8)⟩],
    [⟨[], .basic .int⟩]⟩
 
 example : exSig.WF := by
@@ -1376,7 +1524,10 @@ example : exSig.WF := by
 
 example : resolve exSig false (.name ['x']) [.field ['c'], .index 1] =
     .ok (⟨['x', '_', 'c', '_', '1'], 18, .fp⟩, .int16) := rfl
-example : resolve exSig false (.at 1) [.len] = .ok (⟨['a', 'r', 'g', '1', '_', 'l', 'e', 'n'], 32, .fp⟩, .int) := rfl
+example : resolve exSig false (.at 1) [.len] = .ok (⟨['y', '_', 'l', 'e', 'n'], 32, .fp⟩, .int) := rfl
+/-- unnamed parameters get asmdecl's default names: `func(int8, []uint8)`, second parameter -/
+example : resolve ⟨[⟨[], .basic .int8⟩, ⟨[], .slice (.basic .uint8)⟩], []⟩ false (.at 1) [.len] =
+    .ok (⟨['a', 'r', 'g', '1', '_', 'l', 'e', 'n'], 16, .fp⟩, .int) := rfl
 example : resolve exSig true (.at 0) [] = .ok (⟨['r', 'e', 't'], 48, .fp⟩, .int) := rfl
 example : exSig.bytes = 56 ∧ asmArgSize exSig = 56 := by decide
 example : ResolveSpec exSig false (.name ['x']) [.field ['c'], .index 1] ⟨⟨['x', '_', 'c', '_', '1'], 18, .fp⟩, .int16⟩ := by
@@ -1392,5 +1543,57 @@ example : sizeof (.struct (.cons ['e'] (.struct .nil) (.cons ['a'] (.basic .int8
 example : resolve ⟨[⟨[['p']], .ptr (.struct (.cons ['a'] (.basic .int8) (.cons ['n'] (.array 3 (.basic .string)) .nil)))⟩], []⟩
     false (.at 0) [.deref ['R', 'A', 'X'], .field ['n'], .index 2, .len] = .ok (⟨[], 48, .reg ['R', 'A', 'X']⟩, .int) :=
   rfl
+
+
+/-! ### The acceptor pins the offset of the component the path denotes
+
+Flattened asmdecl names can collide; the specification walks the type tree, so a
+wrong offset under a colliding name is rejected (audit round 1, C07-2). -/
+
+/-- `func(x struct{a struct{b int8}; a_b int8})`: both `x.a.b` (offset 0) and `x.a_b`
+(offset 1) flatten to `x_a_b`. -/
+def exCollide : Sig :=
+  ⟨[⟨[['x']], .struct (.cons ['a'] (.struct (.cons ['b'] (.basic .int8) .nil))
+      (.cons ['a', '_', 'b'] (.basic .int8) .nil))⟩], []⟩
+
+example : ResolveSpec exCollide false (.name ['x']) [.field ['a'], .field ['b']] ⟨⟨['x', '_', 'a', '_', 'b'], 0, .fp⟩, .int8⟩ := by
+  decide
+example : ¬ ResolveSpec exCollide false (.name ['x']) [.field ['a'], .field ['b']] ⟨⟨['x', '_', 'a', '_', 'b'], 1, .fp⟩, .int8⟩ := by
+  decide
+example : ResolveSpec exCollide false (.name ['x']) [.field ['a', '_', 'b']] ⟨⟨['x', '_', 'a', '_', 'b'], 1, .fp⟩, .int8⟩ := by
+  decide
+
+/-- `func(p *struct{a [2]int8; a_1 int8})` through a loaded pointer (no symbol: the
+offset is the only tie): `p.Dereference(RAX).Field("a").Index(1)` is at 1, not at 2. -/
+def exDerefCollide : Sig :=
+  ⟨[⟨[['p']], .ptr (.struct (.cons ['a'] (.array 2 (.basic .int8)) (.cons ['a', '_', '1'] (.basic .int8) .nil)))⟩], []⟩
+
+example : ResolveSpec exDerefCollide false (.at 0) [.deref ['R', 'A', 'X'], .field ['a'], .index 1]
+    ⟨⟨[], 1, .reg ['R', 'A', 'X']⟩, .int8⟩ := by decide
+example : ¬ ResolveSpec exDerefCollide false (.at 0) [.deref ['R', 'A', 'X'], .field ['a'], .index 1]
+    ⟨⟨[], 2, .reg ['R', 'A', 'X']⟩, .int8⟩ := by decide
+/-- the base register must be the one given to `Dereference`, and there is no symbol -/
+example : ¬ ResolveSpec exDerefCollide false (.at 0) [.deref ['R', 'A', 'X'], .field ['a'], .index 1]
+    ⟨⟨[], 1, .reg ['R', 'B', 'X']⟩, .int8⟩ := by decide
+
+/-- Only the blank name may denote several fields: `struct{_ int8; _ int8}`, `Field("_")`
+may be either (Go itself cannot select a blank field). -/
+example : (stepComps (.struct (.cons ['_'] (.basic .int8) (.cons ['_'] (.basic .int8) .nil))) (.field ['_'])).map (·.1) =
+    [0, 1] := by decide
+
+/-! ### Defined and alias scalar types resolve (F17, fixed in fad48e1); component-less kinds shift offsets -/
+
+/-- `type T uint64; func(m map[int]int, e interface{}, x [2]T)`: `x` starts behind the
+map word and the two interface words; `x.Index(1)` is a `uint64` at 32. -/
+def exNamed : Sig :=
+  ⟨[⟨[['m']], .other .map⟩, ⟨[['e']], .other .eface⟩,
+    ⟨[['x']], .array 2 (.named ['T'] (.basic .uint64))⟩], []⟩
+
+example : MustResolve exNamed false (.name ['x']) [.index 1] := by decide
+example : resolve exNamed false (.name ['x']) [.index 1] = .ok (⟨['x', '_', '1'], 32, .fp⟩, .uint64) := rfl
+example : exNamed.bytes = 40 ∧ asmArgSize exNamed = 40 := by decide
+/-- a map parameter is a variable `go vet` knows, but it has no component avo addresses -/
+example : ¬ MustResolve exNamed false (.name ['m']) [] := by decide
+example : resolve exNamed false (.name ['m']) [] = .error .notPrimitive := rfl
 
 end Avo.Layout
